@@ -743,6 +743,50 @@ pub fn c11(ctx: &mut Ctx) {
         c11_run(ctx, s);
     }
     ctx.count_n("exhaustive_small_cjk_lines", all2.len() as u64);
+    // the line-break scan itself (TextwrapModel/Linebreak.lean on the regenerated pair table)
+    // against `unicode_linebreak::linebreaks`: every triple of line-break classes (a first and a
+    // last representative of each class: every entry of the pair table a three-character text can
+    // reach, with and without a preceding ZWJ) and random class sequences of up to eight characters
+    #[cfg(feature = "full")]
+    {
+        let mut reps: Vec<Vec<char>> = Vec::new();
+        for cp in (0u32..=0x10FFFF).filter_map(char::from_u32) {
+            let k = unicode_linebreak::break_property(cp as u32) as u8 as usize;
+            if reps.len() <= k {
+                reps.resize(k + 1, Vec::new());
+            }
+            if reps[k].len() < 2 {
+                reps[k].push(cp);
+            } else {
+                reps[k][1] = cp;
+            }
+        }
+        let reps: Vec<Vec<char>> = reps.into_iter().filter(|r| !r.is_empty()).collect();
+        let lb = |ctx: &mut Ctx, t: &str| {
+            let real = crate::proto::enc_nats(&crate::ops::opps_of_stripped(t));
+            ctx.case(Op { req: format!("lb|{}", crate::proto::enc_text(t)), real }, format!("linebreaks({})", show(t)));
+        };
+        let n = reps.len();
+        let mut cnt = 0u64;
+        for a in 0..n {
+            for b in 0..n {
+                for c in 0..n {
+                    let v = (a + b + c) % 2;
+                    let t: String = [reps[a][v % reps[a].len()], reps[b][(v + 1) % reps[b].len()], reps[c][v % reps[c].len()]].iter().collect();
+                    lb(ctx, &t);
+                    cnt += 1;
+                }
+            }
+        }
+        ctx.count_n("linebreak_class_triples", cnt);
+        ctx.count_n("linebreak_classes_with_a_character", n as u64);
+        for _ in 0..ctx.n(20000, 400_000) {
+            let len = 1 + ctx.rng.below(8);
+            let t: String = (0..len).map(|_| { let r = &reps[ctx.rng.below(n)]; r[ctx.rng.below(r.len())] }).collect();
+            lb(ctx, &t);
+            ctx.count("linebreak_random_class_sequences");
+        }
+    }
     for _ in 0..ctx.n(25000, 500_000) {
         let fl = gen::flavor(&mut ctx.rng);
         let mut line = gen::para(&mut ctx.rng, fl, 8);
